@@ -86,6 +86,21 @@ impl<const N: usize> SymStr<N> {
         }
         s
     }
+    /// every ASCII string of exactly `n` bytes: `n` is a *concrete* length (an `assume(s.n == k)` on a
+    /// symbolic length does not help symbolic execution: loops over the string stay symbolic)
+    #[cfg(kani)]
+    pub fn any_ascii_len(n: usize) -> Self {
+        let mut s = Self::any_ascii();
+        s.n = n;
+        s
+    }
+    /// every well-formed UTF-8 string of exactly `n` bytes (concrete length)
+    #[cfg(kani)]
+    pub fn any_utf8_len(n: usize) -> Self {
+        let b: [u8; N] = kani::any();
+        kani::assume(is_utf8(&b, n));
+        SymStr { b, n }
+    }
     /// every well-formed UTF-8 string of <= N bytes
     #[cfg(kani)]
     pub fn any_utf8() -> Self {
